@@ -290,6 +290,9 @@ def gen_plan(prop, r, tier, run):
                     src.setdefault('size_shared', 'S%d' % len(prev))
                     op['size'] = dict(src['size'])
                     op['size_shared'] = src['size_shared']
+            if prop == 'C03' and op['form'] in ('list', 'dict') \
+                    and r.chance(0.15):
+                op['rerun_same_object'] = True
             if op['form'] == 'streams' and prop in ('C03', 'C13') \
                     and r.chance(0.35):
                 # an earlier call on the same list of lines went wrong
@@ -927,7 +930,26 @@ def run_failing_call(ctx, op):
 
 def run_plain(ctx, op, kept):
     prop = ctx.prop
-    outcome, val, obs = call_extract(ctx, op)
+    if op.get('rerun_same_object') and op['form'] in ('list', 'dict') \
+            and prop == 'C03':
+        # the caller keeps the extractor and runs it a second time (after
+        # looking at the first result, or changing its mind about nothing)
+        outcome, val, obs = call_extract(ctx, op, as_object=True)
+        if outcome == 'ok':
+            x = val
+            try:
+                ctx.simr.begin(op.get('rs'))
+                x.extract()
+                val = list(x.results.rex) if x.results else []
+                ctx.stats['probes']['extractor_run_a_second_time'] += 1
+            except WatchdogTimeout:
+                raise
+            except BaseException as e:
+                if isinstance(e, (KeyboardInterrupt, SystemExit)):
+                    raise
+                outcome, val = 'exc', e
+    else:
+        outcome, val, obs = call_extract(ctx, op)
     note_faults(ctx, op, obs)
     reg = regime(op, obs)
     ev = {'i': op['i'], 'op': 'extract', 'variant': op.get('variant'),
